@@ -27,15 +27,23 @@ func ValidateQuery(query string) (string, error) {
 	// (copy the original bytes of every kept character: re-encoding would turn
 	// each invalid UTF-8 byte into a 3-byte U+FFFD and grow the query past the
 	// length limit that was just checked)
-	var kept strings.Builder
-	for i := 0; i < len(query); {
-		r, size := utf8.DecodeRuneInString(query[i:])
-		if !(unicode.IsControl(r) && r != '\n' && r != '\t') {
-			kept.WriteString(query[i : i+size]) // Remove control characters except newlines and tabs
+	cleaned := query
+	for {
+		var kept strings.Builder
+		for i := 0; i < len(cleaned); {
+			r, size := utf8.DecodeRuneInString(cleaned[i:])
+			if !(unicode.IsControl(r) && r != '\n' && r != '\t') {
+				kept.WriteString(cleaned[i : i+size]) // Remove control characters except newlines and tabs
+			}
+			i += size
 		}
-		i += size
+		// Removing a control character between two stray UTF-8 bytes can join them
+		// into a new (control) character: repeat until nothing more is removed.
+		if kept.Len() == len(cleaned) {
+			break
+		}
+		cleaned = kept.String()
 	}
-	cleaned := kept.String()
 
 	// Check for potentially dangerous characters after sanitization
 	dangerousChars := regexp.MustCompile(`[<>|&;$]`)
